@@ -212,7 +212,8 @@ class Shaper(object):
                                                         rdflib_graph=self._rdflib_graph,
                                                         raw_graph=self._raw_graph,
                                                         input_format=self._input_format,
-                                                        source_file_graph=self._graph_file_input,
+                                                        source_file_graph=self._graph_file_input if self._graph_file_input is not None
+                                                        else self._url_graph_input,
                                                         limit_remote_instances=self._limit_remote_instances)
 
 
